@@ -89,8 +89,13 @@ func init() {
 			n = 3
 		}
 		c11Component(rep, n)
+		sc11 := c11Scenarios()[0]
 		histCheckInto(rep, histCheck{prop: "C11", scenarios: c11Scenarios(), depthQ: 4, depthT: 6, statesQ: 250000, statesT: 4000000,
-			budgetQ: 150 * time.Second, budgetT: 25 * time.Minute, rule: c11rule, assume: peerAssumption, accept: func(v core.Violation) bool {
+			sched: []nschedTask{
+				// a relevant tx arrives while a block is being processed, then a clean restart, a re-announcement and its confirmation
+				{P: sc11, Hist: []string{"mine+:", "mine:", "ans", "tick:250", "tx:T:R1", "tick:250", "restart", "tx:T:R1", "tx:U1:R1", "mine+:R1"}},
+			},
+			budgetQ: 150 * time.Second, budgetT: 25 * time.Minute, rule: c11rule + ". Plus stateless schedule exploration of one baseline (tx arriving while a block is processed, restart, re-announcement, confirmation): one stall (250 ms) or pre-emption at every scheduling point, same oracles", assume: peerAssumption, accept: func(v core.Violation) bool {
 				return strings.Contains(v.Class, "across restart") || strings.Contains(v.Class, "after restart")
 			}})
 		return rep.Finish()
